@@ -16,6 +16,17 @@ Binding B: random grids (SimplePressureProfile, ArrayPressureProfile, explicit l
            layer and wavenumber (MixOk of Clouds.tla, design model MC_CloudsMix).  Long-lived worlds:
            ONE contribution object per kind and ONE model whose pressure range is changed through the
            fitting parameters between events (nlayers unchanged), judged by the same clauses.
+Several slabs: spec/MC_CloudsSlabs.tla (2..3 decks / grey / Lee hazes with their OWN ranges in ONE model, prepared one
+           after the other from the arrays the model exposes; frame condition ExposedGridUntouched; expected
+           counterexamples: a slab leaves its working representation in the exposed level / layer array).
+           Binding A': TLC-simulated slab lists replayed on real objects in one real model, in the listed, the
+           reversed and a rotated order, with / without the band absorber: the sigma_xsec EVERY slab holds after
+           each run is judged with the slab's own bounds (ordinary haze / deck events), the transmittance with
+           the product of the runs with each slab alone ("slabs" events); the same on random grids and on the
+           long-lived worlds (first slab of a kind = the long-lived object, further ones new objects).
+           Every event of every binding carries `frame`: the exposed arrays of the model (EXPOSED) and the
+           wavenumber grid handed to prepare() are re-read after prepare() / model() and compared with private
+           copies (clause model_arrays_untouched).
 Binding C: spec/Functional.tla walks (harness/history.py) on one long-lived model with a deck / grey haze /
            Lee haze: pressure range, temperature, cloud and haze bounds changed through model[<fitting
            parameter>]; sigma_xsec, transmittance and depth must equal those of a freshly built model.
@@ -273,9 +284,9 @@ def mix_event(world, eid, c):
         return e
     finally:
         e['frame'] = sorted(world.touched)
-    e['ta'] = [[tobs(x) for x in row] for row in ta]
-    e['th'] = [[tobs(x) for x in row] for row in th]
-    e['tb'] = [[[tobs(x) for x in row] for row in tb] for tb in both]
+    e['ta'] = obs_rows(ta, world.n)
+    e['th'] = obs_rows(th, world.n)
+    e['tb'] = [obs_rows(tb, world.n) for tb in both]
     cut = math.exp(-10.0)
     hz = np.any((th < 0.999) & (th > 0.0), axis=1) if th.shape == ta.shape else np.zeros(len(ta), bool)
     STATS['mix_events'] += 1
@@ -329,24 +340,38 @@ def deck_event(world, eid, cen2, deckpos, pdeck, run_model, mix=False, reuse=Non
         c = reuse
         c.cloudsPressure = pdeck
     world.touched = set()
-    sigma = world.prepare(c)
+    info = dict(pdeck=pdeck)
+    try:
+        sigma = world.prepare(c)
+    except Exception as ex:      # an outcome of the code under test: no layer gets a class, the deck clauses fail
+        sigma = None
+        info['exception'] = repr(ex)[:200]
     e = deck_record(eid, cen2, deckpos, sigma, world.n)
     if run_model:
-        depth0, tr0 = world.clear()
-        depth1, tr1 = world.with_contribution(c)
-        m = world.model
+        n = world.n
         e['model'] = True
-        e['iszero'] = [bool(np.all(tr1[k] == 0.0)) for k in range(world.n)]
-        e['issame'] = [bool(np.array_equal(tr1[k], tr0[k])) for k in range(world.n)]
-        e['z'] = [dec(x) for x in m.altitudeProfile]
-        e['dz'] = [dec(x) for x in m.deltaz]
-        e['rad'] = dec(m.planet.fullRadius)
-        e['rs'] = dec(m.star.radius)
-        w = int(np.argmin(depth1 / depth0))
-        e['depth'] = dec(float(np.min(depth1)))
-        e['dw'], e['cw'] = dec(float(depth1[w])), dec(float(depth0[w]))
+        e['iszero'], e['issame'] = [False] * n, [False] * n
+        e['z'], e['dz'] = [[-1, 0]] * n, [[-1, 0]] * n
+        try:
+            depth0, tr0 = world.clear()
+            depth1, tr1 = world.with_contribution(c)
+            m = world.model
+            if tr1.shape == tr0.shape and tr1.ndim == 2 and tr1.shape[0] == n and depth1.shape == depth0.shape and depth1.ndim == 1 \
+                    and len(m.altitudeProfile) == n and len(m.deltaz) == n:
+                e['iszero'] = [bool(np.all(tr1[k] == 0.0)) for k in range(n)]
+                e['issame'] = [bool(np.array_equal(tr1[k], tr0[k])) for k in range(n)]
+                e['z'] = [dec(x) for x in m.altitudeProfile]
+                e['dz'] = [dec(x) for x in m.deltaz]
+                e['rad'] = dec(m.planet.fullRadius)
+                e['rs'] = dec(m.star.radius)
+                w = int(np.argmin(depth1 / depth0))
+                e['depth'] = dec(float(np.min(depth1)))
+                e['dw'], e['cw'] = dec(float(depth1[w])), dec(float(depth0[w]))
+            else:
+                info['malformed'] = 'shapes %r %r' % (tr1.shape, depth1.shape)
+        except Exception as ex:  # likewise: every model-level deck clause fails
+            info['exception'] = repr(ex)[:200]
     e['frame'] = sorted(world.touched)
-    info = dict(pdeck=pdeck)
     if e['frame']:
         info['modified_in_place'] = list(e['frame'])
     if mix:
